@@ -305,6 +305,44 @@ def body(run):
                                   observed={f'band {b + 1} differs from "window grown by one fully supported"': dict(pixel=[int(d[0]), int(d[1])], got=bool(got[d[0], d[1]]), n_diff=int((got != exp).sum()))},
                                   signature=dict(kind='partial-mask', grid='ref', parts=['two-band']))
                 break
+    # ---- a source shifted a hair (a few 1e-4 of a processing pixel) off the reference grid: the processing pixels along its upper / left edge are
+    #      covered 99.9x % - not completely - and go, with their neighbourhood, exactly as if the first source rows / columns were missing
+    for k in range(run.scale(3, 9)):
+        ratio = [2, 4, 2][k % 3]
+        hair = [5e-4, 2e-4, 9e-4][k % 3]
+        sh = (rng.randint(10, 14) * ratio, rng.randint(10, 14) * ratio)
+        n0, n1 = rng.randint(1, 3), rng.randint(1, 3)
+        res_ = [1.0, 0.5, 2.0][k % 3]
+        rshape = (n0 + sh[0] // ratio + 3, n1 + sh[1] // ratio + 3)
+        g = synth.Geom(res_, ratio, 16.0, 48.0, rshape, (n0 + hair, n1 + hair), sh)
+        g0 = synth.Geom(res_, ratio, 16.0, 48.0, rshape, (n0, n1), sh)
+        kshape = [(3, 3), (1, 3), (3, 5)][k % 3]
+        yy, xx = np.mgrid[0:sh[0], 0:sh[1]]
+        src = (40 + 1.75 * yy + 3.0 * xx).astype('float32')[None]
+        sm = np.ones(sh, bool)
+        pair = fz.make_pair(run.work, g, rng, src=src, smask=sm, tag='hl')
+        fake = sm.copy()
+        fake[:ratio] = False
+        fake[:, :ratio] = False
+        exp = expected_mask(dict(smask=fake, rmask=np.ones(rshape, bool)), g0, True, kshape)
+        for target in (1, 4):
+            try:
+                mbm, nblk = fz.pick_block_mem(pair['src_fn'], pair['ref_fn'], 'auto', target, kshape)
+                res = fz.fuse(pair['src_fn'], pair['ref_fn'], run.work / 'hl.tif', model='gain', kernel_shape=kshape, proc_crs='auto', max_block_mem=mbm,
+                              param=False, model_config=dict(mask_partial=True, r2_inpaint_thresh=None))
+            except Exception as ex:
+                dist['skipped:' + type(ex).__name__] = dist.get('skipped:' + type(ex).__name__, 0) + 1
+                continue
+            desc = dict(geom=g.describe(), hairline_offset=hair, kernel_shape=list(kshape), model='gain', processing_grid=res['proc_crs'], blocks=nblk, max_block_mem=mbm)
+            dist['hairline/' + res['proc_crs']] = dist.get('hairline/' + res['proc_crs'], 0) + 1
+            run.count_case(('hl', k, target), True, desc if k < 1 else None)
+            got = res['corr']['mask']
+            if res['proc_crs'] == 'ref' and not np.array_equal(got, exp):
+                d = np.argwhere(got != exp)[0]
+                run.add_violation('partial masking keeps / drops the wrong pixels', desc,
+                                  observed={'differs from "completely covered, window grown by one"': dict(pixel=[int(d[0]), int(d[1])], got=bool(got[d[0], d[1]]), n_diff=int((got != exp).sum()))},
+                                  signature=dict(kind='partial-mask', grid='ref', parts=['hairline']))
+                break
     run.cov['rule'] = ('_full_coverage_mask on in-memory masks (input grid 1x / 2x / 4x finer, aligned) against the Gallina erosion in Coq; real fusions '
                        'with mask_partial=True on aligned dyadic geometries, both processing grids (source finer: ref grid; source equal / coarser: src grid), '
                        'kernels incl. h != w, 3 models, one block and 4..9 blocks: the corrected dataset mask must equal the characterisation computed '
